@@ -211,3 +211,25 @@ def run(ctx):
         ctx.check("C02-R11", "IncomingSessionFuture::%s awaits the handshake, then accept()" % nm,
                   sg == sorted(["return await(IncomingSessionFuture::accept(ok(await(%s))))" % arg, "return Result::Err(err(await(%s)))" % arg]),
                   "IncomingSessionFuture::%s changed: %s" % (nm, sg), where(fn))
+
+    ctx.rule("C02-R12", "connect reaches the URL's host for every host kind: (address, TLS server name) = (resolved, domain) / (v4:port, v4 text) / (v6:port, v6 text without URL brackets)")
+    fn = A.fn("wtransport::endpoint::Endpoint::connect::{closure#0}")
+    HOST = r"\(Option::expect\(Url::host\(.*?\),[^()]*\) as %s\)\.0"
+    PORT = r"Option::unwrap_or\(Url::port\(.*?\),443\)"
+    want = {
+        "Domain": r"^Endpoint::connect\(self\.endpoint,ok\(ok\(await\(DnsResolver::resolve\(self\.side\.dns_resolver,.*\)\)\)\),<T as ToString>::to_string\(%s\)\)$" % (HOST % "Domain"),
+        "Ipv4": r"^Endpoint::connect\(self\.endpoint,SocketAddr::V4\(SocketAddrV4::new\(%s,%s\)\),<T as ToString>::to_string\(%s\)\)$" % (HOST % "Ipv4", PORT, HOST % "Ipv4"),
+        "Ipv6": r"^Endpoint::connect\(self\.endpoint,SocketAddr::V6\(SocketAddrV6::new\(%s,%s,0,0\)\),<T as ToString>::to_string\(%s\)\)$" % (HOST % "Ipv6", PORT, HOST % "Ipv6"),
+    }
+    got = {k: set() for k in want}
+    with depth_limit(9):
+        for p in walk(fn):
+            hs = [re.search(r" is (Domain|Ipv4|Ipv6)$", a).group(1) for a in path_sig(p)[0] if re.search(r"Url::host\(.* is (Domain|Ipv4|Ipv6)$", a)]
+            if not hs:
+                continue
+            for e in event_strs(p):
+                if e.startswith("Endpoint::connect("):
+                    got[hs[-1]].add(e)
+    for k, rx in want.items():
+        ctx.check("C02-R12", "connect target for a %s host" % k, len(got[k]) == 1 and re.match(rx, next(iter(got[k]))) is not None,
+                  "Endpoint::connect does not hand quinn (socket address of the host, the host's own text as TLS server name) for a %s host: %s" % (k, sorted(x[:260] for x in got[k])), where(fn), key="connect target|%s" % k)
